@@ -272,13 +272,22 @@ class C11(Prop):
     anchored = ["src/pewlib/process/register.py"]
     cases = {"quick": 600, "thorough": 12000}
     rule = ("random lists of 1..6 arrays (1-3 D, sides 1..4, offsets -5..5, dyadic values k/4, NaNs incl. whole arrays), "
-            "fills NaN/0/finite, three modes, plain and structured; inputs C-contiguous, read-only, strided views, Fortran "
+            "fills NaN/0/finite, three modes, plain and structured; in 40 % of the cases every image (field) is drawn from the "
+            "value classes all 0 / all -0.0 / one constant / the fill value / zeros with NaNs / values that cancel / the "
+            "negative of an earlier image on its footprint / its complement to the fill / values of more than 24 mantissa "
+            "bits; geometry classes in 40 % of the cases: stack of frames on one footprint, abutting tiles with and without "
+            "gaps, images nested in one, images with sides up to 65 (1-D up to 4097, pixel counts around the powers of two), "
+            "lists of 7..40 images; the same ndarray object at two or three places of the list (12 %); a second call on the "
+            "same objects (30 %); inputs C-contiguous, read-only, strided views, Fortran "
             "order, reversed views; offsets as tuples / lists / int64 arrays; structured: float64 fields, and in a fifth of "
             "the cases float32 / int64 fields, in a tenth the same name with two dtypes; metamorphic leg (translation, all "
             "permutations of <= 4 inputs for mean/sum, last writer for replace) on every case of <= 4 inputs in the "
             "thorough tier and a quarter of them in the quick tier; non-trivial = some pixel receives >=2 contributions, "
-            "or a NaN-only covered pixel, or an uncovered pixel; distinct by canonical case hash")
-    trusted = ["np.nansum/np.full/boolean-mask assignment as documented; float sums of the generated dyadic values are exact, "
+            "or a NaN-only covered pixel, or an uncovered pixel, or a pixel whose contributions are all zero / cancel / give "
+            "the fill value, or two abutting images; distinct by canonical case hash")
+    trusted = ["np.nansum/np.full/boolean-mask assignment as documented; float sums of the generated dyadic values are exact "
+               "(evaluate checks that the absolute values of a case sum to less than 2^53 quarters, 2^24 where a float32 field "
+               "is involved, and counts the case as undetermined otherwise), "
                "the mean's single division is correctly rounded (compared with float(Fraction)); float32 fields: the division is "
                "done in float64 and rounded once more to float32 (canonicaliser: float32(float64(q)))",
                "'inputs are left unmodified' is backed by the harness snapshot only (bytes of every input and of the buffer "
@@ -583,8 +592,11 @@ class C11(Prop):
                 vals = np.array([None if v is None else fhex(v / 4) for v in last["data"]], dtype=object).reshape(last["shape"])
                 sub = exp[sl]
                 mask = np.array([v is not None for v in last["data"]]).reshape(last["shape"])
-                sub[mask] = vals[mask]
-                ok = list(exp.ravel()) == base["data"]
+                if sub.shape != mask.shape:  # the result is not the bounding box (reported by the main leg as well)
+                    ok = False
+                else:
+                    sub[mask] = vals[mask]
+                    ok = list(exp.ravel()) == base["data"]
             res["last_writer"] = ok
         return res
 
